@@ -46,7 +46,9 @@ def run_query(fd, q):
             return fd.convert_nodal2elemental(data, calc_average=False, ravel=q['ravel']), eids
         if q.get('by_name'):
             fd.nodal_data.update_data(fd.nodes.ids, {name: data}, allow_overwrite=True)
-            return fd.convert_nodal2elemental(name, calc_average=True), eids
+            data = name
+        if 'ravel' in q:
+            return fd.convert_nodal2elemental(data, calc_average=True, ravel=q['ravel']), eids
         return fd.convert_nodal2elemental(data, calc_average=True), eids
     v = np.array([q['values'][str(e)] for e in eids], dtype=DT[q.get('vdtype', 'float')])
     if q.get('drop_last'):
